@@ -41,4 +41,39 @@ func Lint
   ensures @reports-each [C09] result == nil ==> (forall i int :: {evOf[i]} 0 <= i && i < RdN(rd) && Malformed(rd, i, cc) ==> old(prLen) <= prOf[evOf[i]] && prOf[evOf[i]] < prLen && prArg[prOf[evOf[i]]] == cbErr[evOf[i]] && cbLineNo[evOf[i]] == i + 1 && cbLine[evOf[i]] == RdLine(rd, i))
   ensures @no-errors-only-if-none [C09] result == nil ==> forall k int :: {prArg[k]} old(prLen) <= k && k < prLen && IsNoErrorsMsg(prArg[k]) ==> !lc.Silent && (forall i int :: {RdLine(rd, i)} 0 <= i && i < RdN(rd) ==> !Malformed(rd, i, cc))
   ensures @no-errors-if-none [C09] result == nil && !lc.Silent && (forall i int :: {RdLine(rd, i)} 0 <= i && i < RdN(rd) ==> !Malformed(rd, i, cc)) ==> prLen > old(prLen) && IsNoErrorsMsg(prArg[prLen - 1])
+
+// ---------------------------------------------------------------------------------------------
+// command wiring (C16, C06, C15, C11): the Action closures hand the command exactly the loaded options - the opened
+// files in the order the command expects them (book first, log second) and every part of the configuration equal to
+// the corresponding part of the options, so the settings options.Load resolved are the ones the report runs with.
+// ---------------------------------------------------------------------------------------------
+type lint.lintCmd(stream, lc) returns (err)
+  modifies *
+  modifies ghost(cbLen, cbErr, cbNode, cbStop, cbRet, cbLineNo, cbLine, cbHeader, cbElems, cbNElems, scRd, scPos, privLo, evOf, accKey, accP, accN, accH, bufSink, bufSticky, sinkFailed, sinkPend, prLen, prSink, prArg, prArgs, csvLen, csvW, csvN, csvRow, tnodes, tdepth, tmax, tmapOf, jlen, tvLen, tv, tseg, tvSet, procLen, procTime, procSrc, lastOpen, cfgRd)
+
+type lint.withFileReaders(fileNames, cb) returns (err)
+  modifies *
+  modifies ghost(cbLen, cbErr, cbNode, cbStop, cbRet, cbLineNo, cbLine, cbHeader, cbElems, cbNElems, scRd, scPos, privLo, evOf, accKey, accP, accN, accH, bufSink, bufSticky, sinkFailed, sinkPend, prLen, prSink, prArg, prArgs, csvLen, csvW, csvN, csvRow, tnodes, tdepth, tmax, tmapOf, jlen, tvLen, tv, tseg, tvSet, procLen, procTime, procSrc, lastOpen, cfgRd)
+
+func newLintCommand$2$1$1 returns (err)
+  props C16 C09 C08
+  requires @streams len(streams) == 1 && o != nil && lint != nil && c != nil
+  dyncall 1 lint.lintCmd
+  modifies *
+  modifies ghost(cbLen, cbErr, cbNode, cbStop, cbRet, cbLineNo, cbLine, cbHeader, cbElems, cbNElems, scRd, scPos, privLo, evOf, accKey, accP, accN, accH, bufSink, bufSticky, sinkFailed, sinkPend, prLen, prSink, prArg, prArgs, csvLen, csvW, csvN, csvRow, tnodes, tdepth, tmax, tmapOf, jlen, tvLen, tv, tseg, tvSet, procLen, procTime, procSrc, lastOpen, cfgRd)
+  ghost before dyncall 1 {
+    assert @streams [C16] #arg0 == streams[0]
+    assert @wiring [C16 C09] #arg1.ParserConfig == o.ParserConfig && #arg1.ReporterConfig == o.ReporterConfig && #arg1.Silent == CtxIsSet(c, "silent")
+  }
+
+func newLintCommand$2$1 returns (err)
+  props C16 C09 C08
+  requires @loaded o != nil && c != nil && cu.WithFileReaders != nil
+  dyncall 1 lint.withFileReaders
+  modifies *
+  modifies ghost(cbLen, cbErr, cbNode, cbStop, cbRet, cbLineNo, cbLine, cbHeader, cbElems, cbNElems, scRd, scPos, privLo, evOf, accKey, accP, accN, accH, bufSink, bufSticky, sinkFailed, sinkPend, prLen, prSink, prArg, prArgs, csvLen, csvW, csvN, csvRow, tnodes, tdepth, tmax, tmapOf, jlen, tvLen, tv, tseg, tvSet, procLen, procTime, procSrc, lastOpen, cfgRd)
+  ghost before dyncall 1 {
+    assert @files [C16 C09] len(#arg0) == 1 && #arg0[0] == ArgsFirst(CtxArgs(c))
+  }
+
 @*/
